@@ -3,14 +3,22 @@ package sim
 import (
 	"encoding/json"
 	"fmt"
+	"os"
 	"sort"
 	"strings"
 	"testing"
 	"testing/synctest"
 	"time"
 
+	eiolog "github.com/zishang520/engine.io/v2/log"
 	"github.com/zishang520/engine.io/v2/simrt"
 )
+
+func init() {
+	if os.Getenv("DEBUG") != "" {
+		eiolog.DEBUG = true
+	}
+}
 
 // Result is everything one simulated run produced.
 type Result struct {
@@ -96,14 +104,27 @@ func RunScenario(t *testing.T, sc *Scenario, src simrt.Source, keepTape bool) (r
 		res.States = sortedKeys(w.States)
 		res.Viol = append(res.Viol, w.Viol...)
 		fam.finish(w, res)
-		res.EventHash = hashEvents(w.Evs)
+		res.EventHash = hashEvents(w.Evs, w.SockIDs)
 	})
 	return res
 }
 
-func hashEvents(evs []Ev) uint64 {
+// hashEvents hashes the history with session ids replaced by client aliases:
+// ids embed a process-wide sequence number, so they differ between processes
+// although the execution is the same.
+func hashEvents(evs []Ev, sids map[string]string) uint64 {
 	h := uint64(14695981039346656037)
+	var pairs []string
+	for _, a := range sortedKeys(sids) {
+		if sids[a] != "" {
+			pairs = append(pairs, sids[a], "<"+a+">")
+		}
+	}
+	rep := strings.NewReplacer(pairs...)
 	mix := func(s string) {
+		if len(pairs) > 0 && len(s) >= 20 {
+			s = rep.Replace(s)
+		}
 		for i := 0; i < len(s); i++ {
 			h ^= uint64(s[i])
 			h *= 1099511628211
